@@ -12,11 +12,20 @@
 //
 // Group B (indices 1_000_000..): the same credentials store behind a
 // submission endpoint built from configuration text, driven over TCP.
+//
+// Groups C (2_000_000..) and D (3_000_000..): the same histories and wire
+// scenarios with the credentials in a real table back end (table.sql_table on
+// sqlite3, read-only table.file), over user names that are special to SQL
+// LIKE / globs / regexps / quoting / configuration syntax or that an
+// over-eager normalisation would merge, and with user-name maps built from
+// configuration text that cover the documented table options (xenv_test.go,
+// xnames_test.go).
 package c14
 
 import (
 	"fmt"
 	"net"
+	"os"
 	"sort"
 	"strings"
 	"testing"
@@ -34,7 +43,11 @@ import (
 	"verifkit/rep"
 )
 
-const groupB = 1_000_000
+const (
+	groupB = 1_000_000
+	groupC = 2_000_000 // third widening: histories (real table back ends, special names, configured maps)
+	groupD = 3_000_000 // third widening: wire scenarios
+)
 
 func TestVerif(t *testing.T) {
 	log.DefaultLogger.Out = log.NopOutput{}
@@ -43,13 +56,93 @@ func TestVerif(t *testing.T) {
 
 	selfCheckClasses(t)
 
-	nA := r.N(1000, 20000)
+	// development switch: VERIF_C14_GROUPS=CD runs only the named groups (the
+	// run is then inconclusive by min_observed, as it must be)
+	only := os.Getenv("VERIF_C14_GROUPS")
+	want := func(g string) int {
+		if only == "" || strings.Contains(only, g) {
+			return 1
+		}
+		return 0
+	}
+	nA := r.N(1000, 20000) * want("A")
 	for i := 0; i < nA; i++ {
 		r.Run(i, fmt.Sprintf("hist-%d", i), func(c *rep.Case) { runHistory(t, r, c, i) })
 	}
-	nB := r.N(128, 2000)
+	nB := r.N(128, 2000) * want("B")
 	for i := 0; i < nB; i++ {
 		r.Run(groupB+i, fmt.Sprintf("wire-%d", i), func(c *rep.Case) { runWire(t, r, c, groupB+i) })
+	}
+	selfCheckSpecial(t)
+	nC := r.N(475, 9500) * want("C")
+	for i := 0; i < nC; i++ {
+		r.Run(groupC+i, fmt.Sprintf("xhist-%d", i), func(c *rep.Case) { runHistoryX(t, r, c, groupC+i) })
+	}
+	nD := r.N(95, 1900) * want("D")
+	for i := 0; i < nD; i++ {
+		r.Run(groupD+i, fmt.Sprintf("xwire-%d", i), func(c *rep.Case) { runWireX(t, r, c, groupD+i) })
+	}
+}
+
+// selfCheckSpecial validates the special / near-merge names against x/text's
+// UsernameCaseMapped (library code): every canonical name that can be a user
+// name is a fixed point, the two members of a pair are different accounts, and
+// every generated spelling folds to the canonical name. Names that cannot be
+// user names (the space) must be refused by the profile.
+func selfCheckSpecial(t *testing.T) {
+	p := prng.New(1, 2, "c14-selfcheck-x")
+	for _, f := range append(append([]family(nil), families...), family{"case-folding", foldPairs}) {
+		for _, pr := range f.pairs {
+			ka, ea := precis.UsernameCaseMapped.CompareKey(pr.A)
+			kb, eb := precis.UsernameCaseMapped.CompareKey(pr.B)
+			if (ea == nil) != precisOK(pr.A) || (eb == nil) != precisOK(pr.B) {
+				t.Fatalf("harness: precisOK wrong for pair %q / %q: %v / %v", pr.A, pr.B, ea, eb)
+			}
+			if ea == nil && eb == nil && ka == kb {
+				t.Fatalf("harness: pair %q / %q is one account under UsernameCaseMapped", pr.A, pr.B)
+			}
+			var all []string
+			all = append(all, formsOf(pr.A)...)
+			all = append(all, formsOf(pr.B)...)
+			selfCheckNames(t, all)
+			for _, canon := range all {
+				if !precisOK(canon) {
+					continue
+				}
+				for _, kind := range variantKinds {
+					for rep := 0; rep < 3; rep++ {
+						s, _ := spell(p, canon, kind)
+						key, err := precis.UsernameCaseMapped.CompareKey(s)
+						if err != nil || key != canon {
+							t.Fatalf("harness: spelling %q (%s) of %q folds to %q, %v", s, kind, canon, key, err)
+						}
+						if foldAll(s) != canon {
+							t.Fatalf("harness: foldAll(%q) = %q, want %q", s, foldAll(s), canon)
+						}
+					}
+				}
+			}
+		}
+	}
+}
+
+// selfCheckNames: canonical names are fixed points of UsernameCaseMapped (or
+// refused by it when precisOK says so).
+func selfCheckNames(t *testing.T, names []string) {
+	for _, n := range names {
+		key, err := precis.UsernameCaseMapped.CompareKey(n)
+		if !precisOK(n) {
+			if err == nil {
+				t.Fatalf("harness: %q should not be a user name, folds to %q", n, key)
+			}
+			continue
+		}
+		if err != nil || key != n {
+			t.Fatalf("harness: canonical name %q folds to %q, %v", n, key, err)
+		}
+		if !spellingOK(n) {
+			t.Fatalf("harness: local part of canonical name %q is no user name on its own", n)
+		}
 	}
 }
 
@@ -91,10 +184,24 @@ const (
 	mapRegexpStrip  // (.+)@corp\.example -> ${1}
 	mapRegexpSuffix // (.+) -> ${1}.mx     (not idempotent)
 	nMapKinds
+	// mapExt: a map of the third widening (xenv_test.go): built from
+	// configuration text, reference = nameMap.apply on the literal normal form.
+	mapExt mapKind = 100
 )
 
 func (k mapKind) String() string {
+	if k == mapExt {
+		return "ext"
+	}
 	return [...]string{"none", "identity", "static", "regexp-strip", "regexp-suffix"}[k]
+}
+
+// name is the stable name of the map kind for signatures and shapes.
+func (m *nameMap) name() string {
+	if m.kind == mapExt {
+		return m.label
+	}
+	return m.kind.String()
 }
 
 // nameMap is the real table module plus the harness' reference of it on
@@ -104,6 +211,13 @@ type nameMap struct {
 	tbl    module.Table
 	static map[string]string // canonical login -> canonical account (reference)
 	config []string          // literal entries, for witnesses
+
+	// third widening (kind == mapExt)
+	label      string                          // one of xMapLabels
+	cfgText    string                          // `auth_map <cfgText>` builds the table
+	altCfgText string                          // the same with the option spelling the code reads
+	apply      func(nf string) (string, bool)  // documented semantics on the literal normal form
+	inv        func(canonAcct string) []string // universe names the map sends to the account
 }
 
 func (m *nameMap) ref(canonLogin string) (string, bool) {
@@ -121,6 +235,10 @@ func (m *nameMap) ref(canonLogin string) (string, bool) {
 		return "", false
 	case mapRegexpSuffix:
 		return canonLogin + ".mx", true
+	case mapExt:
+		if v, ok := m.apply(canonLogin); ok {
+			return storeKey(v)
+		}
 	}
 	return "", false
 }
@@ -136,6 +254,15 @@ func (e *env) resolve(spelled, canonLogin string) (string, bool) {
 	nf, ok := docNormalize(e.norm, spelled)
 	if !ok {
 		return "", false
+	}
+	if e.nmap.kind == mapExt {
+		// literal: the table sees exactly the normal form, the credentials
+		// store folds what the table returns
+		v, ok := e.nmap.apply(nf)
+		if !ok {
+			return "", false
+		}
+		return storeKey(v)
 	}
 	if e.nmap.kind == mapStatic && nf != canonLogin {
 		return "", false
@@ -164,6 +291,10 @@ func (m *nameMap) invert(p *prng.R, canonAcct string) string {
 	case mapRegexpSuffix:
 		if strings.HasSuffix(canonAcct, ".mx") {
 			return strings.TrimSuffix(canonAcct, ".mx")
+		}
+	case mapExt:
+		if ls := m.inv(canonAcct); len(ls) > 0 {
+			return prng.Pick(p, ls)
 		}
 	}
 	return canonAcct
@@ -382,6 +513,7 @@ type env struct {
 	sasl  *auth.SASLAuth
 	names []string // canonical names in play
 	model *model
+	x     *xenv // third widening (nil in groups A and B)
 }
 
 // auth_map_normalize settings; the documented folding of each is mirrored by
@@ -433,8 +565,8 @@ type namedTable struct {
 	name string
 }
 
-func (n namedTable) Name() string                 { return "verif_named_table" }
-func (n namedTable) InstanceName() string         { return n.name }
+func (n namedTable) Name() string           { return "verif_named_table" }
+func (n namedTable) InstanceName() string   { return n.name }
 func (n namedTable) Init(*config.Map) error { return nil }
 
 // ---------------- operations ----------------
@@ -475,11 +607,22 @@ var schemes = []schemeOpt{
 
 type counters struct {
 	create, createRefused, createErr, setpw, setpwErr, del int64
-	authPlain, authLogin, authOK, authRefused             int64
+	authPlain, authLogin, authOK, authRefused              int64
 	authzid, authzidSame                                   int64
 	okVariant, okMapped, refusedStale, refusedDeleted      int64
 	extNonASCII72, truncLong, authzidCoMapped              int64
 	okUnstable, sweeps, sweepAfterSuccess, bypass, primed  int64
+
+	// third widening (group C); xs holds per-class counters
+	x  bool
+	xs map[string]int64
+}
+
+func (k *counters) xc(name string, n int64) {
+	if k.xs == nil {
+		k.xs = map[string]int64{}
+	}
+	k.xs[name] += n
 }
 
 func (k *counters) flush(r *rep.Reporter) {
@@ -507,6 +650,9 @@ func (k *counters) flush(r *rep.Reporter) {
 	r.Count("successful_auth_right_before_a_change", k.primed)
 	r.Count("attempts_extending_nonascii_72_byte_password_within_72_chars", k.extNonASCII72)
 	r.Count("attempts_truncating_longer_than_72_byte_password", k.truncLong)
+	for name, n := range k.xs {
+		r.Count(name, n)
+	}
 }
 
 // choosePassword picks the password of an authentication attempt: often the
@@ -553,6 +699,9 @@ func judgeAuth(c *rep.Case, e *env, mech string, o authObs, expect bool, canonLo
 			cause = "name-has-no-mapping"
 			if _, classMapped := e.nmap.ref(canonLogin); classMapped {
 				cause = "name-spelling-not-folded-by=" + e.norm
+				if e.nmap.kind == mapExt {
+					cause = "name-has-no-mapping/spelling-or-option-of-map=" + e.nmap.name()
+				}
 			}
 		case a == nil || (!a.exists && !a.deleted):
 			cause = "account-never-existed"
@@ -564,24 +713,44 @@ func judgeAuth(c *rep.Case, e *env, mech string, o authObs, expect bool, canonLo
 		if by := e.model.accts[canonLogin]; by != nil && by.exists && by.pw == pw && (!mapped || canonAcct != canonLogin) {
 			cause += "/password-of-account-named-like-the-login"
 		}
+		if e.x != nil && mapped {
+			for _, y := range e.x.uni.partner[canonAcct] {
+				if ya := e.model.accts[y]; ya != nil && ya.exists && ya.pw == pw {
+					if e.x.uni.pattern[canonAcct] {
+						cause += "/password-of-account-the-name-matches-as-pattern-or-near-duplicate"
+					} else {
+						cause += "/password-of-account-whose-name-is-a-pattern-or-near-duplicate-of-this-one"
+					}
+					break
+				}
+			}
+		}
 		c.Violation(fmt.Sprintf("auth/accepted-wrong-password/mech=%s/%s", mech, cause),
-			fmt.Sprintf("%s accepted user %q password %q although the reference says no (%s; map %s)", mech, canonLogin, showPw(pw), cause, e.nmap.kind), wit())
+			fmt.Sprintf("%s accepted user %q password %q although the reference says no (%s; map %s)", mech, canonLogin, showPw(pw), cause, e.nmap.name()), wit())
 	}
 	if !o.OK && expect {
 		var cause string
 		switch {
 		case otherOK != nil && *otherOK:
-			cause = "other-mechanism-accepts/map=" + e.nmap.kind.String()
+			cause = "other-mechanism-accepts/map=" + e.nmap.name()
 		case variant != "canon" && retryCanon != nil && retryCanon():
 			cause = "name-spelling=" + variant
+		case e.x != nil && e.pt.AuthPlain(canonAcct, pw) == nil:
+			// the credentials module itself accepts (documented account name,
+			// password): whatever stands before it - normaliser, user-name map,
+			// mechanism - sent the login elsewhere or changed the password
+			cause = "provider-accepts-documented-account-name/map=" + e.nmap.name()
 		default:
 			cause = "scheme=" + a.scheme + "/pw=" + pwKind(pw)
 			if unstable(pw) {
 				cause += "/unstable-under-unicode-normalization"
 			}
+			if e.x != nil {
+				cause = "store=" + e.x.backend + "/name-family=" + e.x.uni.family
+			}
 		}
 		c.Violation(fmt.Sprintf("auth/refused-current-password/mech=%s/%s", mech, cause),
-			fmt.Sprintf("%s refused the current password of account %q (login class %q, spelling kind %s, map %s): %s", mech, canonAcct, canonLogin, variant, e.nmap.kind, o.Err), wit())
+			fmt.Sprintf("%s refused the current password of account %q (login class %q, spelling kind %s, map %s): %s", mech, canonAcct, canonLogin, variant, e.nmap.name(), o.Err), wit())
 	}
 }
 
@@ -592,13 +761,51 @@ func runHistory(t *testing.T, r *rep.Reporter, c *rep.Case, idx int) {
 	if err != nil {
 		t.Fatalf("harness: %v", err)
 	}
+	playHistory(t, r, c, idx, p, e, "A")
+}
+
+// runHistoryX: group C - the histories of group A on a real table back end,
+// over a universe of special / near-merge names, with a user-name map built
+// from configuration text (xenv_test.go). Own PRNG stream.
+func runHistoryX(t *testing.T, r *rep.Reporter, c *rep.Case, idx int) {
+	p := prng.New(r.Seed(), uint64(idx), "c14-x")
+	e, err := newEnvX(p, fmt.Sprintf("x%d_%d", r.Seed(), idx), idx-groupC)
+	if err != nil {
+		t.Fatalf("harness: %v", err)
+	}
+	defer e.close()
+	selfCheckNames(t, e.names)
+	playHistory(t, r, c, idx, p, e, "C")
+}
+
+func (e *env) witness(hist []opRec) map[string]any {
+	w := map[string]any{"map": e.nmap.name(), "map_config": e.nmap.config, "auth_map_normalize": e.norm, "history": hist}
+	if e.x != nil {
+		w["credentials_table"] = e.x.backend
+		w["name_family"] = e.x.uni.family
+		w["names"] = e.names
+		if e.x.fileTxt != "" {
+			w["auth_map_file"] = e.x.fileTxt
+		}
+		if e.x.optNote != "" {
+			w["note"] = e.x.optNote
+		}
+	}
+	return w
+}
+
+func playHistory(t *testing.T, r *rep.Reporter, c *rep.Case, idx int, p *prng.R, e *env, grp string) {
 	var k counters
+	k.x = e.x != nil
 	defer k.flush(r)
 	nops := p.Range(5, 12)
 	slowBudget := 2 // default-cost bcrypt hashes allowed in this history
+	if e.x != nil {
+		slowBudget = 1
+	}
 	var hist []opRec
 	wit := func() any {
-		return map[string]any{"map": e.nmap.kind.String(), "map_config": e.nmap.config, "auth_map_normalize": e.norm, "history": hist}
+		return e.witness(hist)
 	}
 	shape := map[string]bool{}
 	nontrivial := false
@@ -646,10 +853,10 @@ func runHistory(t *testing.T, r *rep.Reporter, c *rep.Case, idx int) {
 		judgeAuth(c, e, "LOGIN", lo, expect, canonLogin, canonAcct, mapped, vk, pw, &po.OK,
 			func() bool { return runLogin(e.sasl, canonLogin, pw, false).OK }, wit)
 		if po.OK != lo.OK {
-			c.Violation(fmt.Sprintf("mech-disagree/decision/map=%s", e.nmap.kind),
+			c.Violation(fmt.Sprintf("mech-disagree/decision/map=%s", e.nmap.name()),
 				fmt.Sprintf("same credentials (user %q): PLAIN ok=%v, LOGIN ok=%v", name, po.OK, lo.OK), wit())
 		} else if po.OK && (po.Identity != lo.Identity || po.Username != lo.Username) {
-			c.Violation(fmt.Sprintf("mech-disagree/identity/map=%s", e.nmap.kind),
+			c.Violation(fmt.Sprintf("mech-disagree/identity/map=%s", e.nmap.name()),
 				fmt.Sprintf("same credentials (user %q): PLAIN reports identity %q, LOGIN %q", name, po.Identity, lo.Identity), wit())
 		}
 		if po.OK == expect && lo.OK == expect {
@@ -666,6 +873,14 @@ func runHistory(t *testing.T, r *rep.Reporter, c *rep.Case, idx int) {
 				if unstable(pw) {
 					k.okUnstable++
 				}
+				if e.x != nil {
+					k.xc("x_success_on_store="+e.x.backend, 1)
+					k.xc("x_success_via_map="+e.nmap.name(), 1)
+					k.xc("x_success_in_name_family="+e.x.uni.family, 1)
+					if len(e.x.uni.partner[canonAcct]) > 0 {
+						k.xc("x_success_on_account_of_a_pattern_or_near_merge_pair", 1)
+					}
+				}
 			} else {
 				k.authRefused += 2
 				if a != nil && a.exists {
@@ -681,6 +896,37 @@ func runHistory(t *testing.T, r *rep.Reporter, c *rep.Case, idx int) {
 					k.refusedDeleted++
 					nontrivial = true
 				}
+				if e.x != nil {
+					k.xc("x_refusal_on_store="+e.x.backend, 1)
+					if !mapped {
+						k.xc("x_refused_no_mapping_via_map="+e.nmap.name(), 1)
+						// refused only because the map (option case_insensitive no, a
+						// key written in another case) is case-sensitive
+						if nf, ok := docNormalize(e.norm, name); ok && nf != strings.ToLower(nf) {
+							if v, ok := e.nmap.apply(strings.ToLower(nf)); ok {
+								if _, ok := storeKey(v); ok {
+									k.xc("x_refused_where_a_case_insensitive_map_lookup_would_have_mapped", 1)
+								}
+							}
+						}
+					}
+					// the supplied password is the current one of a partner
+					// (pattern / near-merge) account of the one looked up
+					for _, y := range e.x.uni.partner[canonAcct] {
+						if ya := e.model.accts[y]; mapped && ya != nil && ya.exists && ya.pw == pw {
+							k.xc("x_refused_password_of_partner_account_on_store="+e.x.backend, 1)
+							k.xc("x_refused_password_of_partner_account_in_name_family="+e.x.uni.family, 1)
+							if a == nil || !a.exists {
+								k.xc("x_refused_password_of_partner_account_for_missing_account", 1)
+							}
+							if strings.ContainsAny(y+canonAcct, "ßς") {
+								k.xc("x_refused_password_of_account_that_differs_by_case_folding_only", 1)
+							}
+							nontrivial = true
+							break
+						}
+					}
+				}
 			}
 		}
 		st := "no-account"
@@ -690,7 +936,7 @@ func runHistory(t *testing.T, r *rep.Reporter, c *rep.Case, idx int) {
 			st = "deleted"
 		}
 		shape[fmt.Sprintf("%s/%s/%s/expect=%v/%s", op, vk, st, expect, pwKind(pw))] = true
-		r.Distinct("auth_situations", fmt.Sprintf("map=%s norm=%s name=%s acct=%s expect=%v pw=%s", e.nmap.kind, e.norm, vk, st, expect, pwKind(pw)))
+		r.Distinct("auth_situations", fmt.Sprintf("map=%s norm=%s name=%s acct=%s expect=%v pw=%s", e.nmap.name(), e.norm, vk, st, expect, pwKind(pw)))
 		return pairRes{expect, mapped, canonAcct, a}
 	}
 	// loginFor gives a login name (class and spelling) the map sends to the account.
@@ -743,6 +989,51 @@ func runHistory(t *testing.T, r *rep.Reporter, c *rep.Case, idx int) {
 		}
 		lastAuthOK[canon] = false
 	}
+	// cross (group C): after a change of an account, its partners - the
+	// accounts whose name it matches as a pattern / would be merged with, and
+	// vice versa - must be untouched, and neither name may open the other
+	// account. authPair decides from the reference, whatever the state is.
+	slow := func(canon string) bool {
+		a := e.model.accts[canon]
+		return a != nil && a.exists && a.scheme == "bcrypt-default" && !p.Chance(1, 3)
+	}
+	cross := func(canon string) {
+		if e.x == nil {
+			return
+		}
+		ys := e.x.uni.partner[canon]
+		for i, y := range ys {
+			if i >= 2 {
+				break
+			}
+			xa, ya := e.model.accts[canon], e.model.accts[y]
+			if ya != nil && ya.exists && !slow(y) {
+				cl, name, vk := loginFor(y)
+				authPair("auth-partner-own-password-after-change", cl, name, vk, ya.pw, "current")
+				k.xc("x_partner_account_probed_with_its_own_password_after_change", 1)
+			}
+			if xa != nil && xa.exists && (ya == nil || !ya.exists || ya.pw != xa.pw) && !slow(y) {
+				cl, name, vk := loginFor(y)
+				authPair("auth-partner-name-with-password-of-changed-account", cl, name, vk, xa.pw, "password-of-partner")
+				k.xc("x_cross_attempts_between_partner_accounts", 1)
+			}
+			if ya != nil && ya.exists && (xa == nil || !xa.exists || xa.pw != ya.pw) && !slow(canon) {
+				cl, name, vk := loginFor(canon)
+				authPair("auth-changed-name-with-password-of-partner", cl, name, vk, ya.pw, "password-of-partner")
+				k.xc("x_cross_attempts_between_partner_accounts", 1)
+			}
+		}
+	}
+	if e.x != nil {
+		for _, canon := range e.x.initial {
+			cross(canon)
+		}
+		k.xc("x_histories_on_store="+e.x.backend, 1)
+		k.xc("x_histories_with_map="+e.nmap.name(), 1)
+		if e.x.optNote != "" {
+			k.xc("x_documented_regexp_option_name_refused_alternative_used", 1)
+		}
+	}
 
 	for step := 0; step < nops; step++ {
 		op := p.Weighted([]int{3, 2, 2, 7})
@@ -760,6 +1051,9 @@ func runHistory(t *testing.T, r *rep.Reporter, c *rep.Case, idx int) {
 				if a := e.model.accts[n]; a != nil && a.deleted && !a.exists {
 					gone = append(gone, n)
 				}
+			}
+			if e.x != nil {
+				canon = e.pickAccountName(p)
 			}
 			if len(gone) > 0 && p.Chance(2, 3) {
 				canon = prng.Pick(p, gone)
@@ -790,6 +1084,7 @@ func runHistory(t *testing.T, r *rep.Reporter, c *rep.Case, idx int) {
 			hist = append(hist, rec)
 			shape["create/"+vk+"/"+sc.name+"/"+pwKind(pw)] = true
 			sweep(canon)
+			cross(canon)
 		case 1: // set password (always default-cost bcrypt: slow)
 			slowBudget--
 			var canon string
@@ -813,6 +1108,7 @@ func runHistory(t *testing.T, r *rep.Reporter, c *rep.Case, idx int) {
 			hist = append(hist, rec)
 			shape["setpw/"+vk+"/"+pwKind(pw)] = true
 			sweep(canon)
+			cross(canon)
 		case 2: // delete
 			var canon string
 			if ex := e.model.existing(); len(ex) > 0 && p.Chance(4, 5) {
@@ -835,6 +1131,7 @@ func runHistory(t *testing.T, r *rep.Reporter, c *rep.Case, idx int) {
 			keep := lastAuthOK[canon]
 			sweep(canon)
 			lastAuthOK[canon] = keep // still relevant for the re-creation that may follow
+			cross(canon)
 		case 3: // authenticate
 			// Target an account (mostly an existing or a deleted one), then a
 			// login name that the map sends there - or, to probe the map's
@@ -855,12 +1152,26 @@ func runHistory(t *testing.T, r *rep.Reporter, c *rep.Case, idx int) {
 				canonLogin = canonAcctWanted // the provider's account name, bypassing the map
 			}
 			name, vk := spell(p, canonLogin, prng.Pick(p, variantKinds))
+			if e.x != nil && len(e.x.logins) > 0 && p.Chance(1, 6) {
+				// a map key written in a non-canonical spelling, supplied literally
+				name, vk = prng.Pick(p, e.x.logins), "literal-map-key"
+				canonLogin = foldAll(name)
+			}
 			canonAcct, mapped := e.resolve(name, canonLogin)
 			var a *acct
 			if mapped {
 				a = e.model.accts[canonAcct]
 			}
 			pw, probe := choosePassword(p, a, e.model, canonAcct)
+			if e.x != nil && mapped && p.Chance(1, 3) {
+				// the password of a partner account (pattern / near-merge pair)
+				for _, y := range e.x.uni.partner[canonAcct] {
+					if ya := e.model.accts[y]; ya != nil && ya.exists {
+						pw, probe = ya.pw, "password-of-partner"
+						break
+					}
+				}
+			}
 			// A name the map does not know (or sends elsewhere) together with
 			// the password of the account that bears that very name.
 			if by := e.model.accts[canonLogin]; by != nil && by.exists && (!mapped || canonAcct != canonLogin) && p.Chance(3, 5) {
@@ -931,12 +1242,12 @@ func runHistory(t *testing.T, r *rep.Reporter, c *rep.Case, idx int) {
 		}
 	}
 	if len(hist) > 0 && idx < 3 {
-		r.Sample(map[string]any{"case": c.ID, "map": e.nmap.kind.String(), "history": hist})
+		r.Sample(map[string]any{"case": c.ID, "map": e.nmap.name(), "history": hist})
 	}
 	var ss []string
 	for s := range shape {
 		ss = append(ss, s)
 	}
 	sort.Strings(ss)
-	c.Done("A/"+e.nmap.kind.String()+"/"+e.norm+"/"+strings.Join(ss, ","), nontrivial)
+	c.Done(grp+"/"+e.nmap.name()+"/"+e.norm+"/"+strings.Join(ss, ","), nontrivial)
 }
